@@ -90,6 +90,45 @@ pub fn commits() -> u64 {
 }
 
 // ---------------------------------------------------------------------------
+// ingest loop state (handle_changes): lets a simulator detect exactly when the
+// loop has consumed everything it was offered and has no work left
+
+static INGEST_RECV: AtomicU64 = AtomicU64::new(0);
+static INGEST_BUSY: std::sync::atomic::AtomicBool = std::sync::atomic::AtomicBool::new(false);
+static INGEST_QUEUE: AtomicU64 = AtomicU64::new(0);
+static INGEST_JOBS: AtomicU64 = AtomicU64::new(0);
+
+/// the loop took one item from its input channel and starts handling it
+pub fn ingest_recv() {
+    INGEST_BUSY.store(true, Ordering::SeqCst);
+    INGEST_RECV.fetch_add(1, Ordering::SeqCst);
+}
+
+/// top of a loop iteration: everything received so far has been handled
+pub fn ingest_state(queue_len: usize, jobs: usize) {
+    INGEST_QUEUE.store(queue_len as u64, Ordering::SeqCst);
+    INGEST_JOBS.store(jobs as u64, Ordering::SeqCst);
+    INGEST_BUSY.store(false, Ordering::SeqCst);
+}
+
+/// (items received, busy, queue length, running jobs)
+pub fn ingest_snapshot() -> (u64, bool, u64, u64) {
+    (
+        INGEST_RECV.load(Ordering::SeqCst),
+        INGEST_BUSY.load(Ordering::SeqCst),
+        INGEST_QUEUE.load(Ordering::SeqCst),
+        INGEST_JOBS.load(Ordering::SeqCst),
+    )
+}
+
+pub fn ingest_reset() {
+    INGEST_RECV.store(0, Ordering::SeqCst);
+    INGEST_BUSY.store(false, Ordering::SeqCst);
+    INGEST_QUEUE.store(0, Ordering::SeqCst);
+    INGEST_JOBS.store(0, Ordering::SeqCst);
+}
+
+// ---------------------------------------------------------------------------
 // buggify
 
 fn buggify_sites() -> &'static Mutex<HashMap<&'static str, (u64, u64)>> {
